@@ -463,7 +463,7 @@ PROPS = {
     "C04": {"theorems": ["C04_success", "C04_releases_everything", "C04_releases_once", "C04_dependents_released_first", "C04_nothing_released_early"], "engines": [eng_prog],
             "assumptions": ["Go semantics of the emitted fragment is Exec.v's reading of the Go spec, validated by runtime traces"]},
     "C05": {"theorems": ["C05_never_picks", "C05_closure_spelled_out", "C05_conflict_is_real", "C05_conflict_is_reported", "C05_accepted_maps_well_formed"], "engines": [eng_synth, eng_prog, eng_multi, eng_layouts], "assumptions": [SYNTH_NOTE]},
-    "C06": {"theorems": ["C06_missing_accepted", "C06_rejected_names_missing_accepted", "C06_accepted_is_complete_accepted"], "engines": [eng_synth, eng_prog, eng_multi, eng_forms, eng_layouts], "assumptions": [SYNTH_NOTE, WF_NOTE]},
+    "C06": {"theorems": ["C06_missing_accepted", "C06_object_cache_transparent", "C06_rejected_names_missing_accepted", "C06_accepted_is_complete_accepted"], "engines": [eng_synth, eng_prog, eng_multi, eng_forms, eng_layouts], "assumptions": [SYNTH_NOTE, WF_NOTE]},
     "C07": {"theorems": ["C07_cycles_detected", "C07_only_cycle_errors", "C07_terminates", "C07_machine_refines_dfs", "C07_solve_terminates", "C07_checker_graph_covers_planner_graph", "C07_accepted_sets_acyclic_for_planner", "C07_linear_bound", "C07_cycles_detected_total", "C07_planner_linear_bound"],
             "engines": [eng_synth, eng_prog],
             "assumptions": [SYNTH_NOTE, "wall-clock behaviour is runtime, sampled on lattices/chains only"]},
